@@ -297,7 +297,8 @@ BARE_STRINGS = ["Foo", "foo_bar9", "/Path/To/123.txt", "C:\\path\\to\\thing", "A
 QUOTED_SYMBOLS = ["a", " ", '"', "'", "\\", "#", ",", "]", "=", "\u00e9", "\n"]
 QUOTED_NAMED = ["", "C:\\temp\\new.csv", "A+, \n", "He said \"hi\" to 'them'", "tab\there", "x" * 40, "[1, 2]", "key: value", "(a = b)", "\u20ac 5",
                 "ends with backslash\\", "# not a comment", "  padded  ", "5", "1.5", "True",
-                "\U0001f600", "score \U0001f600\U0001d11e", "\u4e2d\u6587", "True Color", "False"]
+                "\U0001f600", "score \U0001f600\U0001d11e", "\u4e2d\u6587", "True Color", "False",
+                "\ufeffelev", "a\ufeffb", "\u200bzw", "nb\u00a0sp"]
 
 
 def quoted_strings(maxlen):
